@@ -20,9 +20,10 @@ from harness import core
 from harness import pandora_util as pu
 from harness.props.c01 import expected_trace_py
 
-# gen_scale_arith: Gen/ScaleArith.v = the arithmetic of run_prepare / matching_cost_prepare / run_multiscale and the
-# interval expressions of disparity_range, translated from the ast (obligations: Proofs/ScaleArithGenP.v)
-GEN = ["gen_tables", "gen_msconst", "gen_scale_arith"]
+# gen_scale_arith: Gen/ScaleArith.v = the arithmetic of run_prepare / matching_cost_prepare / run_multiscale;
+# gen_scale_arith_range: Gen/ScaleArithRange.v = the interval expressions of disparity_range; both translated from the ast
+# (obligations: Proofs/ScaleArithGenP.v, Proofs/ScaleArithRangeGenP.v)
+GEN = ["gen_tables", "gen_msconst", "gen_scale_arith", "gen_scale_arith_range"]
 EXTRACT_FILES = ["X15"]
 DRIVERS = ["x15"]
 RULE = ("random pandora.run executions: sad, window 3/5, images 12..30 x 14..36 (mono, 2-band, with/without masks with "
@@ -49,8 +50,8 @@ ASSUMES = [
 TRUSTED = ["cst.PANDORA_MSK_PIXEL_INVALID is read from the imported package and given to the model as data"]
 
 
-# per-run obligations on Gen/ScaleArith.v (translator/gen_scale_arith.py), proved for ALL inputs in
-# Proofs/ScaleArithGenP.v and restated in Props/C15.v (C15_gen_*_is_model)
+# per-run obligations on Gen/ScaleArith.v and Gen/ScaleArithRange.v (translator/gen_scale_arith.py), proved for ALL inputs
+# in Proofs/ScaleArithGenP.v / Proofs/ScaleArithRangeGenP.v and restated in Props/C15.v (C15_gen_*_is_model)
 SCALE_ARITH_OBLIGATIONS = [
     "Gen.ScaleArith.run_prepare_params = (num_scales, scale_factor) when both are given, (1, 1) otherwise; "
     "run_prepare_is_multi = (1 <? self.num_scales) (C15_gen_params_is_model)",
@@ -62,7 +63,7 @@ SCALE_ARITH_OBLIGATIONS = [
     "guard only, cost volumes allocated on the scaled intervals) (C15_gen_matching_cost_prepare_is_model)",
     "Gen.ScaleArith.run_multiscale = model_msc (user interval x sf handed to disparity_range, current_scale - 1) "
     "(C15_gen_run_multiscale_is_model)",
-    "Gen.ScaleArith.range_{min,max}_{init,invalid} = Model.Multiscale.fallback = int(np.nanmin(disp_min)), "
+    "Gen.ScaleArithRange.range_{min,max}_{init,invalid} = Model.Multiscale.fallback = int(np.nanmin(disp_min)), "
     "int(np.nanmax(disp_max)) whatever the two other reductions; range_{min,max}_window = nanmin - marge, nanmax + marge "
     "= win_range; range_offset = offset; zoom by scale_factor, order 0, mode nearest, skipped for factor 1 "
     "(C15_gen_disparity_range_is_model)",
